@@ -95,6 +95,10 @@ def gen(seed, tier):
         elif x < 0.92:
             ops.append(['undo', -1 - r.randrange(3),
                         r.choice((1, 1, 1, 2, 3))])
+            if r.random() < 0.3:
+                # an undo whose transaction is aborted after the storage
+                # did the undo (another participant votes no)
+                ops[-1].append('fail')
         elif x < 0.96:
             ops.append(['pack', r.choice(('before_last', 'after_all',
                                           'middle'))])
@@ -664,7 +668,7 @@ class M:
         self.trace.append('fail:' + how)
         self.after_step('after failed commit (%s)' % how, True)
 
-    def op_undo(self, k, m=1):
+    def op_undo(self, k, m=1, fail=None):
         if self.kind not in ('file', 'proxy') or len(self.commit_log) < 2:
             return
         A = self.A
@@ -684,7 +688,18 @@ class M:
             else:
                 self.db.undoMultiple([undo_id(tid) for tid in tids],
                                      A.tm.get())
+            if fail:
+                A.tm.get().join(FailingDM('tpc_vote', first=False))
             A.commit()
+        except Boom:
+            A.abort()
+            self.nfail += 1
+            if self.adopt():
+                self.flag('failed-commit-stored', 'an aborted undo left a '
+                          'transaction')
+            self.trace.append('undo-aborted')
+            self.after_step('after aborted undo', True)
+            return
         except UndoError:
             A.abort()
             self.trace.append('undo-refused')
